@@ -181,17 +181,21 @@ func (c06) Exec(tr *Trace, keep bool) *Outcome {
 	o.stat("class_"+feat["class"], 1)
 	o.stat("pkg_"+sc.Pkg, 1)
 	// Writers must reject exactly what the stdlib rejects
+	rejectedSeg := -1
 	for i := range frec.Ops {
 		if sc.Fault != nil {
 			break // histories with an injected sink fault: only the containers after Reset are judged
+		}
+		if frec.Ops[i].Seg == rejectedSeg {
+			continue // the rest of a life both Writers refused is C16's subject; the lives after Reset are judged again
 		}
 		if frec.Ops[i].K != "r" && (frec.Ops[i].Err == nil) != (srec.Ops[i].Err == nil) {
 			o.violate(tr, "C06.error_parity", fmt.Sprintf("op %d (%s): fastgo %v, stdlib %v", i, frec.Ops[i].K, frec.Ops[i].Err, srec.Ops[i].Err), feat)
 			return o
 		}
 		if frec.Ops[i].Err != nil {
-			o.stat("histories_rejected_by_both", 1)
-			return o
+			o.stat("lives_rejected_by_both", 1)
+			rejectedSeg = frec.Ops[i].Seg
 		}
 	}
 	dict := dictOf(sc)
